@@ -129,7 +129,7 @@ def pScores (K : Nat) : P Cli.Scores := fun ts => do
 def fmtOfName : String → Option Cli.Fmt
   | "auto" => some .auto | "auto_extended" => some .autoExt | "conll" => some .conll
   | "ptb" => some .ptb | "deriv" => some .deriv | "ja" => some .ja
-  | "prolog_en" => some .prologEn | "prolog_ja" => some .prologJa | "json" => some .json | _ => none
+  | "prolog_en" => some .prologEn | "prolog_ja" => some .prologJa | "json" => some .json | "html" => some .html | _ => none
 
 def cliOp (seenOf : String → Option (Option (List (Cat × Cat)))) (unaryOf : String → Option (List (Cat × List Cat)))
     (ts : List String) : String :=
@@ -162,6 +162,19 @@ def cliOp (seenOf : String → Option (Option (List (Cat × Cat)))) (unaryOf : S
 /-! ### `treescore`: the model score of a (real) tree, from the tree alone and the inputs
 
   treescore <cats> <penalty> <n> <tags n*K> <deps n*(n+1)> <tree> -/
+/-- `numfmt k`: the three spellings of the float `k/64` the program prints (`{:.8f}`, `{:.5e}`, `repr`) -/
+def numFmtOp (ts : List String) : String :=
+  match pInt ts with
+  | some (k, []) => "ok " ++ encStr (Cli.fmt8 k) ++ " " ++ encStr (Cli.fmt5e k) ++ " " ++ encStr (Print.jsonFloat k)
+  | _ => "bad-op"
+
+/-- the same without `repr` (whose shortest-round-trip digits equal the exact expansion only up to
+    15 significant digits) -/
+def numFmtFeOp (ts : List String) : String :=
+  match pInt ts with
+  | some (k, []) => "ok " ++ encStr (Cli.fmt8 k) ++ " " ++ encStr (Cli.fmt5e k)
+  | _ => "bad-op"
+
 def treeScoreOp (ts : List String) : String :=
   match (do
     let (cats, ts) ← pList pCat ts
